@@ -264,3 +264,65 @@ def name_id_agreement(ctx):
         except Exception as e:  # noqa
             ok, detail = False, f"{type(e).__name__}: {e}"
         yield (f"cfgdb[{name}]:name-id-agree", ok, detail, {"key": name})
+
+
+def replay_lookup(o):
+    """native search for a key ID / name on which the real lookup functions deviate from the documented lookup"""
+    import random
+    from pyubx2.ubxhelpers import cfgkey2name, cfgname2key
+    from contracts.specs import n_cfgkey2name_spec
+    import pyubx2.exceptions as ube
+    db, stor = cfgdb()
+    info = {"reproduced": False}
+    rnd = random.Random(99)
+    kids = [k for k, _ in db.values()]
+    cands = list(kids)
+    for k in kids[::7]:
+        for b in range(32):
+            cands.append(k ^ (1 << b))
+    cands += [rnd.randrange(1 << 28, 1 << 32) for _ in range(20000)]
+    for k in cands:
+        if not (1 << 28) <= k < (1 << 32) and k not in kids:
+            continue
+        try:
+            want = ("ok", n_cfgkey2name_spec(k))
+        except KeyError:
+            want = ("err", None)
+        try:
+            got = ("ok", cfgkey2name(k))
+        except ube.UBXMessageError:
+            got = ("err", None)
+        except Exception as e:  # noqa
+            got = ("exc", type(e).__name__)
+        if got != want:
+            info.update(reproduced=True, inputs={"keyid": hex(k)},
+                        observed=f"cfgkey2name({hex(k)}) -> {got!r}; the documented lookup gives {want!r}")
+            return info
+    for name, (kid, typ) in db.items():
+        try:
+            if cfgname2key(name) != (kid, typ):
+                info.update(reproduced=True, inputs={"name": name}, observed=f"cfgname2key({name!r}) != {(kid, typ)!r}")
+                return info
+        except Exception as e:  # noqa
+            info.update(reproduced=True, inputs={"name": name}, observed=f"{type(e).__name__}")
+            return info
+    info["note"] = f"{len(cands)} key IDs and all names agree with the documented lookup natively"
+    return info
+
+
+def replay_tables_untouched(o):
+    """native confirmation of a frame violation: parse / look up unknown keys, then compare the shared tables"""
+    import copy
+    import pyubx2
+    from pyubx2.ubxhelpers import cfgkey2name
+    info = {"reproduced": False}
+    before = (dict(pyubx2.UBX_CONFIG_DATABASE), dict(pyubx2.UBX_MSGIDS))
+    for k in (0x10990001, 0x20990002, 0x50990003):
+        try:
+            cfgkey2name(k)
+        except Exception:  # noqa
+            pass
+    after = (dict(pyubx2.UBX_CONFIG_DATABASE), dict(pyubx2.UBX_MSGIDS))
+    if before != after:
+        info.update(reproduced=True, observed=f"UBX_CONFIG_DATABASE has {len(after[0])} entries after looking up unknown key IDs, {len(before[0])} before")
+    return info
